@@ -262,3 +262,43 @@ func fatalf(format string, args ...interface{}) {
 	fmt.Fprintf(os.Stderr, format+"\n", args...)
 	os.Exit(2)
 }
+
+// ScratchCtx creates a private recording context for a goroutine spawned by a case (the monitor's own state is never
+// shared between goroutines); merge it back with MergeScratch after the goroutine has finished.
+func ScratchCtx(parent *Ctx) *Ctx {
+	return &Ctx{Prop: parent.Prop, Tier: parent.Tier, Seed: parent.Seed, Idx: parent.Idx, Verbose: false,
+		counters: map[string]int64{}, digests: map[uint64]struct{}{}}
+}
+
+// MergeScratch folds a scratch context into the case context.
+func MergeScratch(dst, src *Ctx) {
+	if src == nil {
+		return
+	}
+	for k, v := range src.counters {
+		if strings.HasPrefix(k, "max:") {
+			if v > dst.counters[k] {
+				dst.counters[k] = v
+			}
+		} else {
+			dst.counters[k] += v
+		}
+	}
+	for d := range src.digests {
+		dst.digests[d] = struct{}{}
+	}
+	for _, v := range src.viols {
+		if len(dst.viols) < 8 {
+			dst.viols = append(dst.viols, v)
+		}
+	}
+	dst.inconcl = append(dst.inconcl, src.inconcl...)
+}
+
+// CounterOf reads a counter of a context.
+func CounterOf(c *Ctx, name string) int64 {
+	if c == nil {
+		return 0
+	}
+	return c.counters[name]
+}
